@@ -6,7 +6,7 @@ HERE = os.path.dirname(os.path.dirname(os.path.abspath(__file__)))
 
 TRUST = ("Trusted: the simulator's own reference codec/crypto (self-tested against RFC 1321/2202/4231/5769 vectors at start-up), "
          "the ledger and oracle tables, rustc/std. Caller obligations assumed: monotonic time, events() pulled after every call. "
-         "Credential strings restricted to those on which OpaqueString is the identity. Sampling, not proof.")
+         "Credential strings come from a fixed table whose OpaqueString result is known a priori (PRECIS is not re-implemented). Sampling, not proof.")
 
 CHECKS = {
     "C05": dict(cat="exploration", ref="DESIGN.md §6 C05",
